@@ -66,7 +66,7 @@ Theorem C03_parse_pi_post :
     prefix_b (b "<?") (sub text (s_pos s) (s_pos s')) = true /\
     sub text (s_pos s' - 2) (s_pos s') = b "?>" /\
     match value with
-    | Some v => slice_len v <> 0 /\ sl_end v + 2 = s_pos s' /\ sl_end target <= sl_start v /\
+    | Some v => slice_len v <> 0 /\ sl_end v + 2 = s_pos s' /\ sl_end target < sl_start v /\
                 forallb byte_is_space (sub text (sl_end target) (sl_start v)) = true /\
                 (exists x, hd_error (slice_bytes text v) = Some x /\ byte_is_space x = false)
     | None => forallb byte_is_space (sub text (sl_end target) (s_pos s' - 2)) = true
